@@ -1,12 +1,11 @@
 # pylint: disable=bad-staticmethod-argument
 
-import contextlib
 import copy
 from typing import Any, Callable
 
 from spec_classes.types import MISSING
 from spec_classes.utils.method_builder import MethodBuilder
-from spec_classes.utils.mutation import mutate_value, thawed
+from spec_classes.utils.mutation import _rollback_on_error, mutate_value, thawed
 from spec_classes.utils.type_checking import type_label
 
 from .base import MethodDescriptor
@@ -167,7 +166,7 @@ class ResetMethod(MethodDescriptor):
         if not _inplace:
             self = copy.deepcopy(self)
 
-        with thawed(self) if not _inplace else contextlib.nullcontext():
+        with thawed(self) if not _inplace else _rollback_on_error(self):
             for attr in self.__spec_class__.attrs:
                 try:
                     delattr(self, attr)
